@@ -21,6 +21,9 @@ mod c01_model;
 mod c01_trees;
 #[path = "../shared/c01_reentrant.rs"]
 mod c01_reentrant;
+#[cfg(not(miri))]
+#[path = "../shared/c01_shared_rt.rs"]
+mod c01_shared_rt;
 
 use std::{
     collections::BTreeMap,
@@ -1466,6 +1469,11 @@ fn static_case(r: &mut Report, seed: u64, index: u64) {
 
 fn main() {
     let args = Args::parse();
+    #[cfg(not(miri))]
+    if let Some(k) = args.get("child-shared") {
+        // one process = one initialisation of the shared runtime (see shared/c01_shared_rt.rs)
+        std::process::exit(c01_shared_rt::child_main(args.seed, k.parse().unwrap_or(0)));
+    }
     let mut r = Report::new(
         "C01",
         &args,
@@ -1502,6 +1510,10 @@ fn main() {
     par_cases(&mut r, &args, n_dyn, |i, r| dyn_case(r, seed, i));
     par_cases(&mut r, &args, n_static, |i, r| static_case(r, seed, static_from + i));
     r.set("static_shapes", json!(STATIC_NAMES.len()));
+    #[cfg(not(miri))]
+    if !args.lane.contains("san") {
+        c01_shared_rt::shared_accessors(&mut r, seed, args.n(24, 400));
+    }
     let n_re = if cfg!(miri) { 3 } else { args.n(3_000, 100_000) };
     par_cases(&mut r, &args, n_re, |i, r| c01_reentrant::reentrant_case(r, seed, i));
 
